@@ -7,7 +7,7 @@ generator : option vectors x inputs: valid schemas; token-level mutants; structu
 oracle    : prophyc.main(args) under a SIGALRM watchdog either returns having written every requested output file,
             or raises ProphycError / SystemExit (argparse) / the plain Exception of the patch module / the file
             processor's own errors.  Violation: timeout, or an escaping ValueError, LookupError (Key/Index),
-            AttributeError, TypeError, AssertionError or RecursionError.  Failures are bucketed by (exception type,
+            AttributeError, TypeError, AssertionError, RecursionError or ArithmeticError (ZeroDivisionError).  Failures are bucketed by (exception type,
             innermost prophyc frame) so that one run enumerates root causes; the smallest input per bucket is kept.
             A sample of inputs is replayed through `python -m prophyc` to confirm exit status != 0 with stderr text.
 """
@@ -33,7 +33,7 @@ ASSUME = ["inputs are valid UTF-8 (UnicodeDecodeError is outside the domain)",
           "xml.etree ParseError is bucketed and reported in evidence but not judged (the property's list does not name "
           "it)", "watchdog 30 s against a typical run of 15 ms"]
 WATCHDOG_S = 30
-FORBIDDEN = (ValueError, LookupError, AttributeError, TypeError, AssertionError, RecursionError)
+FORBIDDEN = (ValueError, LookupError, AttributeError, TypeError, AssertionError, RecursionError, ArithmeticError)
 
 
 class _Timeout(BaseException):
@@ -156,6 +156,11 @@ ISAR_FRAGMENTS = [
     '<struct name="Msg"><member name="a" type="CA"/></struct><struct name="CA"><member name="b" type="CB"/></struct>'
     '<struct name="CB"><member name="a" type="CA"/></struct>',
     '<constant name="SH" value="1 << -1"/>',
+    '<constant name="HALF" value="1 +"/><struct name="S"><member name="x" type="u8"><dimension size="HALF"/></member></struct>',
+    '<struct name="S"><member name="x" type="u8"><dimension size="2 *"/></member></struct>',
+    '<struct name="S"><member name="x" type="u8"><dimension size="4 / 0"/></member></struct>',
+    '<struct name="S"><member name="x" type="u8"><dimension size="(2"/></member></struct>',
+    '<enum name="E"><enum-member name="a" value="1 / 0"/></enum><struct name="S"><member name="x" type="u8"><dimension size="a"/></member></struct>',
     '<constant name="SH" value="shiftLeft(1, -2)"/><struct name="S"><member name="x" type="u8"><dimension size="SH"/></member></struct>',
     '<constant name="SH" value="1 >> -1"/><enum name="E"><enum-member name="a" value="SH"/></enum>',
     '<typedef name="T1" type="T2"/><typedef name="T2" type="T1"/>',
